@@ -60,6 +60,9 @@ type Scenario struct {
 	Steps []Step `json:"steps,omitempty"`
 	Proto string `json:"proto,omitempty"`
 	Old   bool   `json:"old,omitempty"` // brokers before KIP-890 part 2 (no epoch bump per transaction): kfake capped at 3.7
+	// Expect is carried through untouched: what spec/Txn.tla says EndTransaction reports and which records end up visible
+	// (scenarios exported from the specification; compared by the check, not by the driver)
+	Expect json.RawMessage `json:"expect,omitempty"`
 }
 
 var keyOf = map[string]kmsg.Key{"produce": kmsg.Produce, "endtxn": kmsg.EndTxn, "initpid": kmsg.InitProducerID, "addparts": kmsg.AddPartitionsToTxn,
@@ -202,10 +205,14 @@ func arm(c *kfake.Cluster, chaos *sim.Chaos, rec *sim.Recorder, f Fault) {
 			}
 			return resp, nil, true
 		})
-	case "retriable", "concurrent":
+	case "retriable", "concurrent", "fatal":
 		code := kerr.CoordinatorLoadInProgress.Code
 		if f.Kind == "concurrent" {
 			code = kerr.ConcurrentTransactions.Code
+		}
+		if f.Kind == "fatal" {
+			// answered without being handled, with a code the client does not retry: EndTransaction returns the error
+			code = kerr.UnknownServerError.Code
 		}
 		c.ControlKey(key, func(kreq kmsg.Request) (kmsg.Response, error, bool) {
 			n--
